@@ -74,6 +74,11 @@ Definition status_count (m : mask) (st : status) : nat :=
     accounts for the static LDS size on both paths. *)
 Record demand := mkDemand { d_nwf : nat; d_sgpr : N; d_vgpr : N; d_lds : N; d_dyn : N }.
 
+(** ldsBytes (curesourceimpl.go): the LDS a work-group occupies is the size in
+    the dispatch packet (static + dynamic), never less than the static size of
+    the code object; used by the reserve path and the free path alike. *)
+Definition lds_bytes (d : demand) : N := N.max (d_lds d) (d_dyn d).
+
 (** WfLocation without the wavefront pointer; offsets are in bytes as in Go. *)
 Record loc := mkLoc { l_simd : nat; l_vgpr : N; l_sgpr : N; l_lds : N }.
 
@@ -211,7 +216,7 @@ Inductive outcome := Crash | Ret (s : cu) (r : option (list loc)).
 (** ReserveResourceForWG *)
 Definition reserve (s : cu) (k : wgkey) (d : demand) : outcome :=
   let sreq := units (d_sgpr d) SREG_GRAN in
-  let lreq := units (d_lds d) LDS_GRAN in
+  let lreq := units (lds_bytes d) LDS_GRAN in
   let vreq := units (d_vgpr d) VREG_GRAN in
   let '(sm, so) := sgpr_pass (smask s) sreq (d_nwf d) in
   let s1 := mkCU sm (lmask s) (simds s) (next_simd s) (resident s) in
@@ -246,7 +251,7 @@ Definition reserve (s : cu) (k : wgkey) (d : demand) : outcome :=
 
 Definition free_loc (d : demand) (s : cu) (l : loc) : cu :=
   mkCU (set_status (smask s) (N.to_nat (l_sgpr l / 4 / SREG_GRAN)) (units (d_sgpr d) SREG_GRAN) SFree)
-       (set_status (lmask s) (N.to_nat (l_lds l / LDS_GRAN)) (units (d_lds d) LDS_GRAN) SFree)
+       (set_status (lmask s) (N.to_nat (l_lds l / LDS_GRAN)) (units (lds_bytes d) LDS_GRAN) SFree)
        (upd (l_simd l)
             (fun sd => mkSimd (set_status (vmask sd) (N.to_nat (l_vgpr l / 4 / VREG_GRAN))
                                           (units (d_vgpr d) VREG_GRAN) SFree)
